@@ -121,6 +121,10 @@
 (declare-fun Sup (Iface) Bool)
 (declare-fun SupList (Slice) Bool)
 (declare-fun SupCases (Slice Int) Bool)
+; no live yield (C12): abstract, generated by the `ghost` rules of the pass-2 contracts from HasYield on simple parts
+(declare-fun NY (Iface) Bool)
+(declare-fun NYList (Slice) Bool)
+(declare-fun NYCases (Slice Int) Bool)
 ; the import declarations of a file after go-imports' Clean (abstract; assumed contract of the dependency)
 (declare-fun importsCleaned (Ref World) World)
 (declare-fun funcType (Ref) Iface)
